@@ -32,7 +32,7 @@ CHECKS = {
     "C09": ("model_checking", K_TECH + "; tracking secret factory accounting",
             "The same history space with a tracking SecretFactory: after every call data keys are released, with caching disabled nothing stays live, live secrets are exactly the open keys reachable from the caches (walker), at most one per key and cache and never above capacity, and after restart every secret of the closed factory was released exactly once and never touched again; the same accounting on every error path of the fault space (<= 2-4 injected metastore/KMS/AEAD/allocator faults) and at the end of every interleaving of the session-cache eviction schedule harnesses.", "6/C09"),
     "C15": ("model_checking", "explicit-state breadth-first search over cache operation histories on the real cache against reference models",
-            "BFS over Set/Get/Delete/tick/Len/Close histories on 4 keys for lru/lfu/slru/tinylfu, capacities 1..6 and 99/100/101, with/without expiry, synchronous and asynchronous eviction (event goroutine under the controlled scheduler); each step compared with a reference model: values, Len, exact multiset of eviction callbacks, victims per the policy's definition, no panic/deadlock; plus asynchronous eviction with two user goroutines and the event goroutine under the controlled scheduler (callbacks exactly once and delivered before Close returns).", "6/C15"),
+            "BFS over Set/Get/Delete/tick/Len/Close histories on 4 keys for lru/lfu/slru/tinylfu, capacities 1..6 and 99/100/101, with/without expiry, synchronous and asynchronous eviction (event goroutine under the controlled scheduler); each step compared with a reference model: values, Len, exact multiset of eviction callbacks, victims per the policy's definition, no panic/deadlock; plus asynchronous eviction with two user goroutines and the event goroutine under the controlled scheduler (callbacks exactly once and delivered before Close returns). Plus a fixed family of long deterministic histories (4 access patterns x policies x capacities up to 128, 300-6000 operations, TinyLFU across its sample reset), every step judged by the same model.", "6/C15"),
     "C19": ("model_checking", "exhaustive enumeration of request sequences against a reference protocol automaton on the real handler",
             "Every sequence of up to 5 (thorough: 6) requests over a 9-request alphabet plus end-of-stream is sent through an in-memory stream into the real AppEncryption.Session (memory metastore, static KMS); one response per request, protocol state enforced, round-trips verified on a second stream, no panic; plus two concurrent streams on one AppEncryption (with and without session caching) under the controlled scheduler. Plus every structurally malformed decrypt record (each optional sub-message / field absent, truncated, empty, oversized) and typed-nil request bodies in every protocol state, followed by ordinary requests.", "6/C19"),
 }
